@@ -1,6 +1,7 @@
 import Lace.Props.C03
 import Lace.Props.C03Term
 import Lace.Props.C03TermRun
+import Lace.Props.C03Fuel
 #print axioms Lace.C03.load_spec
 #print axioms Lace.C03.run_eq_ref
 #print axioms Lace.C03.fetch_in_bounds
@@ -23,3 +24,7 @@ import Lace.Props.C03TermRun
 #print axioms Lace.C03.terminal_run_eq_pipe_run
 #print axioms Lace.C03.terminal_process_eq_pipe_process
 #print axioms Lace.C03.typed_process_eq_pipe_process
+#print axioms Lace.C03.loop_fuel_mono
+#print axioms Lace.C03.loop_fuel_agree
+#print axioms Lace.C03.fetches_fuel_mono
+#print axioms Lace.C03.ref_run_fuel_mono
